@@ -165,3 +165,19 @@ def sampled_from(seq):
     if n <= 1:
         return st.sampled_from(seq)
     return st.integers(0, n - 1).map(lambda i: seq[(i + (STRATUM * n) // max(1, N_STRATA)) % n])
+
+
+class WrongReturn(Exception):
+    """A public call handed back something that is not the documented kind of object (None, a tuple, ...)."""
+
+    def __init__(self, what, obj):
+        super().__init__(f"{what} returned {type(obj).__name__}")
+        self.what, self.type_name = what, type(obj).__name__
+
+
+def need(obj, attr, what):
+    """obj must offer `attr` (the documented kind of result of the public call `what`); otherwise the case fails
+    with oracle returns_documented_object -- a library failure, not a harness error."""
+    if obj is None or not hasattr(obj, attr):
+        raise WrongReturn(what, obj)
+    return obj
